@@ -41,7 +41,7 @@ def rec_engine(run, tier, tag, max_ops, max_stop, caches, goals=None):
     """the recursive solver in lock-step with RecGround.tla (answers and engine events of every behaviour) on a sampled family plus the
     structured programs of ground.smoke()"""
     import props_rec
-    n = 40 if tier == "quick" else 600
+    n = 40 if tier == "quick" else 160
     f = ground.family(2, 2, 2, True, True, seed=seed(), sample=n) if tier == "quick" else ground.family(3, 3, 1, True, True, seed=seed(), sample=n)
     fam, ids = [], set()
     for p in f + ground.smoke():
@@ -183,7 +183,7 @@ def c10(run, tier):
         f, byid = fam(run, tier, (2, 2, 2, True, True), 70, None)
         ops = 3
     else:
-        f, byid = fam(run, tier, None, None, (3, 3, 1, True, True), 1500)
+        f, byid = fam(run, tier, None, None, (3, 3, 1, True, True), 500)
         ops = 3
     recs = gc.model_check(run, f, gc.goals_atoms_and_not, {"MaxOps": ops, "Kinds": ["solve"], "Invariants": ["ResultsCorrect", "DeviationShape", "EnginePanicShape", "BoundedWork"]}, "C10")
     smoke_histories(run, "C10s")
